@@ -953,13 +953,13 @@ PARTS = {
 
 def main(ctx):
     ctx.run_replays(PARTS)
-    ctx.explore(reqline_s, run_reqline, ctx.n(2000, 300000), name="reqline")
-    ctx.explore(statusline_s, run_statusline, ctx.n(2000, 300000), name="statusline")
-    ctx.explore(parse_header_s, run_parse_header, ctx.n(2000, 300000), name="parse_header")
-    ctx.explore(cookie_s, run_cookie, ctx.n(1200, 150000), name="cookie")
-    ctx.explore(hostport_s, run_hostport, ctx.n(1200, 150000), name="hostport")
-    ctx.explore(encode_s, run_encode, ctx.n(1200, 150000), name="encode")
-    ctx.explore(timestamp_s, run_timestamp, ctx.n(1000, 100000), name="timestamp")
-    ctx.explore(url_concat_s, run_url_concat, ctx.n(1500, 200000), name="url_concat")
-    ctx.explore(re_unescape_s, run_re_unescape, ctx.n(1200, 150000), name="re_unescape")
-    ctx.explore(ip_s, run_ip, ctx.n(1200, 150000), name="ip")
+    ctx.explore(reqline_s, run_reqline, ctx.n(2000, 150000), name="reqline")
+    ctx.explore(statusline_s, run_statusline, ctx.n(2000, 150000), name="statusline")
+    ctx.explore(parse_header_s, run_parse_header, ctx.n(2000, 150000), name="parse_header")
+    ctx.explore(cookie_s, run_cookie, ctx.n(1200, 80000), name="cookie")
+    ctx.explore(hostport_s, run_hostport, ctx.n(1200, 80000), name="hostport")
+    ctx.explore(encode_s, run_encode, ctx.n(1200, 80000), name="encode")
+    ctx.explore(timestamp_s, run_timestamp, ctx.n(1000, 50000), name="timestamp")
+    ctx.explore(url_concat_s, run_url_concat, ctx.n(1500, 100000), name="url_concat")
+    ctx.explore(re_unescape_s, run_re_unescape, ctx.n(1200, 80000), name="re_unescape")
+    ctx.explore(ip_s, run_ip, ctx.n(1200, 80000), name="ip")
